@@ -241,11 +241,23 @@ class Drainer:
 class WireClient:
     """A raw TCP client of the manager. All sends are whole `sendall`s; reading is done by the Drainer."""
 
-    def __init__(self, drainer: Drainer, addr, label, timecode=False):
+    def __init__(self, drainer: Drainer, addr, label, timecode=False, avoid_ports=None):
         self.label = label
         self.timecode = timecode
-        self.sock = socket.socket(socket.AF_INET, socket.SOCK_STREAM)
-        self.sock.setsockopt(socket.IPPROTO_TCP, socket.TCP_NODELAY, 1)
+        for _ in range(50):
+            self.sock = socket.socket(socket.AF_INET, socket.SOCK_STREAM)
+            self.sock.setsockopt(socket.IPPROTO_TCP, socket.TCP_NODELAY, 1)
+            if avoid_ports is None:
+                break
+            # choose the local port before connecting, so that a port already used by this rig can be declined
+            # without the manager ever seeing a connection
+            try:
+                self.sock.bind((addr[0], 0))
+            except OSError:
+                break
+            if self.sock.getsockname()[1] not in avoid_ports:
+                break
+            self.sock.close()
         self.sock.connect(addr)
         self.local = self.sock.getsockname()
         self.buf = bytearray()
